@@ -48,6 +48,7 @@ class St:
         self.handled = []      # stack of tuples of exception classes catchable by enclosing handlers
         self.trace = []
         self.ghost = {}
+        self.remap = {}        # id(object of an ancestor state) -> (that object, its copy in this state)
 
     def fork(self):
         s = St(self.ex)
@@ -67,7 +68,33 @@ class St:
         s.handled = list(self.handled)
         s.trace = list(self.trace)
         s.ghost = {k: _clone(v, memo) for k, v in self.ghost.items()}
+        if hasattr(self, "pending_exc"):
+            s.pending_exc = self.pending_exc
+        s.remap = dict(self.remap)
+        for k, (old, new) in memo.items():
+            s.remap[k] = (old, new)
         return s
+
+    def tr(self, v, depth=0):
+        """the copy, in this state, of a heap object that was obtained in an ancestor state
+        (values computed before a fork must be re-targeted to the fork's own heap)"""
+        if isinstance(v, (VObj, VDict, VList, VSymCache)):
+            seen = 0
+            while id(v) in self.remap and seen < 64:
+                v = self.remap[id(v)][1]
+                seen += 1
+            return v
+        if isinstance(v, BoundMethod):
+            r = self.tr(v.recv)
+            return v if r is v.recv else BoundMethod(r, v.name)
+        if isinstance(v, UserFn) and v.self_obj is not None:
+            r = self.tr(v.self_obj)
+            return v if r is v.self_obj else UserFn(v.modsrc, v.node, v.qual, self_obj=r)
+        if isinstance(v, VTuple) and depth < 3 and self.remap:
+            items = [self.tr(x, depth + 1) for x in v.items]
+            if any(a is not b for a, b in zip(items, v.items)):
+                return VTuple(items)
+        return v
 
     def assume(self, c):
         self.ctx.assume(c)
@@ -109,29 +136,29 @@ def _clone(v, memo):
     """deep copy of mutable heap values, sharing immutable ones"""
     if isinstance(v, (VList, VDict, VObj)):
         if id(v) in memo:
-            return memo[id(v)]
+            return memo[id(v)][1]
         if isinstance(v, VList):
             n = VList([], v.fresh)
             if getattr(v, "bytes", False):
                 n.bytes = True
-            memo[id(v)] = n
+            memo[id(v)] = (v, n)
             n.items = [_clone(x, memo) for x in v.items]
         elif isinstance(v, VDict):
             n = VDict({}, v.fresh)
-            memo[id(v)] = n
+            memo[id(v)] = (v, n)
             n.d = {k: _clone(x, memo) for k, x in v.d.items()}
         else:
             n = VObj(v.cls, {}, v.fresh)
-            memo[id(v)] = n
+            memo[id(v)] = (v, n)
             n.fields = {k: _clone(x, memo) for k, x in v.fields.items()}
         return n
     if isinstance(v, VTuple):
         return VTuple([_clone(x, memo) for x in v.items])
     if isinstance(v, VSymCache):
         if id(v) in memo:
-            return memo[id(v)]
+            return memo[id(v)][1]
         n = VSymCache(None, v.removed, {})
-        memo[id(v)] = n
+        memo[id(v)] = (v, n)
         n.owner = _clone(v.owner, memo)
         n.extra = {k: _clone(x, memo) for k, x in v.extra.items()}
         return n
@@ -592,6 +619,11 @@ class Executor:
             m.ctx.bound(b)
         m.env = env
         m.ghost = ghost
+        m.remap = dict(s2.remap)
+        m.remap.update(s1.remap)
+        for (ia, ib), (r, a, b) in (getattr(scratch, "heap_merge", {}) or {}).items():
+            m.remap[ia] = (a, r)
+            m.remap[ib] = (b, r)
         k = 0
         while k < len(s1.pc) and k < len(s2.pc) and s1.pc[k].get_id() == s2.pc[k].get_id():
             k += 1
@@ -789,7 +821,8 @@ class Executor:
                 if isinstance(rest, Raised):
                     yield rest, s3
                 else:
-                    yield (list(v.items) if star else [v]) + rest, s3
+                    vv = v if s3 is s2 and not s3.remap else s3.tr(v)
+                    yield (list(vv.items) if star else [vv]) + rest, s3
 
     def e_Dict(self, e, st):
         if any(k is None for k in e.keys):
@@ -998,6 +1031,10 @@ class Executor:
         if isinstance(l, VInt) and isinstance(r, VInt):
             a, b = l.t, r.t
             return {ast.Lt: a < b, ast.LtE: a <= b, ast.Gt: a > b, ast.GtE: a >= b}[type(op)]
+        if isinstance(l, VStr) and isinstance(r, VInt) and self.is_char(l):
+            return self.compare(st, op, VInt(self.char_code(l)), r, node)
+        if isinstance(l, VInt) and isinstance(r, VStr) and self.is_char(r):
+            return self.compare(st, op, l, VInt(self.char_code(r)), node)
         if isinstance(l, VBool) and isinstance(r, VBool) and isinstance(op, ast.LtE):
             return z3.Implies(l.t, r.t)          # bool <= bool is implication
         if isinstance(l, VStr) and isinstance(r, VStr):
@@ -1034,6 +1071,8 @@ class Executor:
         return s.a[s.lo]
 
     def identical(self, l, r):
+        if isinstance(l, VStr) and isinstance(r, VStr):
+            return z3.BoolVal(l is r)
         if isinstance(l, VOpt) and isinstance(r, VNone):
             return l.isnone
         if isinstance(r, VOpt) and isinstance(l, VNone):
@@ -1073,6 +1112,12 @@ class Executor:
             if l.kind != r.kind:
                 return z3.BoolVal(False)
             return V.str_eq(st.ctx, l, r)
+        if getattr(self, "c_semantics", False):
+            # Cython: a character literal compared with a Py_UCS4 / char value is its code point
+            if isinstance(l, VStr) and isinstance(r, VInt) and self.is_char(l):
+                return self.char_code(l) == r.t
+            if isinstance(l, VInt) and isinstance(r, VStr) and self.is_char(r):
+                return l.t == self.char_code(r)
         if isinstance(l, (VTuple, VList)) and isinstance(r, (VTuple, VList)):
             if type(l) is not type(r) or len(l.items) != len(r.items):
                 return z3.BoolVal(False)
@@ -1382,6 +1427,12 @@ class Executor:
         if isinstance(base, (VStr, VList, VDict, VTuple, VSymCache, VStream)):
             return BoundMethod(base, name)
         if isinstance(base, VConst):
+            cls = type(base.obj)
+            if getattr(cls, "__module__", "") == "yarl._quoting_c_pyx":
+                ms = ModuleSrc.get(cls.__module__)
+                fnode = ms.funcs.get(f"{cls.__name__}.{name}")
+                if fnode is not None:
+                    return UserFn(ms, fnode, f"{cls.__name__}.{name}", self_obj=base)
             try:
                 return self.wrap(getattr(base.obj, name))
             except AttributeError:
@@ -1545,7 +1596,9 @@ class Executor:
         """call of a repo function: through its contract if it has one, else inlined"""
         qual = f"{f.modsrc.modname}:{f.qual}"
         c = self.contracts.get(qual)
-        if c is None:
+        if c is not None and getattr(c, "call_inline", False):
+            c = None
+        elif c is None:
             c = self.spec_contract(f)
             if c is not None and c.qual == getattr(self, "verifying", None):
                 c = None
@@ -1941,6 +1994,12 @@ class Executor:
             st.env[name] = VStream(name, spec)
         for g, init in spec.ghost.items():
             st.ghost[g] = self.eval1(ast.parse(init, mode="eval").body, st)[0]
+        if spec.writer is not None:
+            w = st.env.get(spec.writer)
+            if not isinstance(w, VObj):
+                raise Unsupported("writer object expected")
+            w.fields["__stream__"] = VStream(spec.writer, spec)
+            self.cur_writer_spec = spec
         self.oblige(st, "loop-invariant-entry", "inv-entry", spec.invariant(self, st), s)
         names = (self.assigned_names(s.body) | set(spec.lists)) - set(spec.streams)
         ranges = [range(lo, hi + 1) for (lo, hi) in spec.lists.values()]
@@ -1962,7 +2021,19 @@ class Executor:
                 elif nm in h.env:
                     h.env[nm] = self.havoc(h, nm, h.env[nm])
             for g in spec.ghost:
-                h.ghost[g] = VInt(fresh_int("G" + g))
+                cur = src.ghost.get(g)
+                h.ghost[g] = VBool(fresh_bool("G" + g)) if isinstance(cur, VBool) else (
+                    VInt(0) if g == "k" else VInt(fresh_int("G" + g)))
+            for oname, flds in spec.fields.items():
+                obj = h.env.get(oname)
+                if isinstance(obj, VObj):
+                    for fname, kind in flds.items():
+                        if kind == "flag":
+                            v = fresh_int(f"{oname}_{fname}")
+                            h.ctx.add(z3.Or(v == 0, v == 1))
+                            obj.fields[fname] = VInt(v)
+                        else:
+                            obj.fields[fname] = VInt(fresh_int(f"{oname}_{fname}"))
             return h
         for lens in itertools.product(*ranges):
             self.sol.push()
@@ -1977,7 +2048,8 @@ class Executor:
                     continue
                 for flow, val, s2 in self.exec_block(s.body, 0, body_st):
                     if flow in ("next", "continue"):
-                        self.oblige(s2, "loop-invariant-preserved", "inv-step", spec.invariant(self, s2), s)
+                        for s3 in spec.settle(self, s2, None):
+                            self.oblige(s3, "loop-invariant-preserved", "inv-step", spec.invariant(self, s3), s)
                     elif flow == "break":
                         yield "next", None, s2
                     else:
